@@ -176,6 +176,9 @@ pub enum Ev {
     Release,
     Sleep(u64),
     Join,
+    /// the caller of the k-th request that is still running gives up: its task is aborted (a `select!`, an outer timeout, a
+    /// dropped connection on the caller's side); nothing is learnt about that request, everything else must be unaffected
+    Cancel(usize),
 }
 
 #[derive(Debug, Clone)]
@@ -235,7 +238,8 @@ impl Prop for NetFaults {
         let n = 3 + src.below(23);
         let mut events = vec![];
         for _ in 0..n {
-            events.push(match src.weighted(&[6, 2, 2, 2, 2, 5, 1]) {
+            events.push(match src.weighted(&[6, 2, 2, 2, 2, 5, 1, 2]) {
+                7 => Ev::Cancel(src.below(4)),
                 0 => Ev::Send {
                     n: 1 + src.below(4),
                     payload_len: *src.pick(&[0usize, 10, 1_000, 17_000, 40_000, CAP]),
@@ -270,7 +274,8 @@ impl Prop for NetFaults {
     fn rule(&self) -> &'static str {
         "datacake-rpc client and server over hyper/h2 over turmoil's simulated TCP (1 ms tick, 1-5 ms latency, seeded); \
          client script of 3-25 events: send 1-4 concurrent requests (payload / reply 0 B - 48 KiB, handler delay 0 - 6 s, \
-         shared or fresh channel, client built directly or cloned once / twice from a configured one), partition, repair, hold, release, sleep 1 ms - 5.1 s, join; client timeout T in \
+         shared or fresh channel, client built directly or cloned once / twice from a configured one), partition, repair, hold, release, sleep 1 ms - 5.1 s, join, \
+         a caller giving up on a running request (its task is aborted); client timeout T in \
          {0,0.5,2,5 s}; the script ends with release + repair + join; oracle: every request ends as Ok(reply with its own id, \
          the digest of its own payload and the requested length) or Err(ConnectionError|Timeout) within T + 10 ms of \
          simulated time; the handler log holds every id at most once and every id whose client saw Ok, with the digest of \
@@ -284,6 +289,8 @@ fn run_net(case: &NetCase) -> Outcome {
     start_server(&mut sim, log.clone());
     let done: Arc<Mutex<Vec<Done>>> = Arc::new(Mutex::new(vec![]));
     let fault_during_flight = Arc::new(Mutex::new(false));
+    let cancelled: Arc<Mutex<Vec<u64>>> = Arc::new(Mutex::new(vec![]));
+    let cancelled2 = cancelled.clone();
 
     let events = case.events.clone();
     let t = Duration::from_millis(case.timeout_ms);
@@ -292,7 +299,7 @@ fn run_net(case: &NetCase) -> Outcome {
     sim.client("client", async move {
         let shared = Channel::connect(server_addr());
         let mut next_id = 1u64;
-        let mut handles: Vec<tokio::task::JoinHandle<()>> = vec![];
+        let mut handles: Vec<(u64, tokio::task::JoinHandle<()>)> = vec![];
         let mut faulty = false; // a partition or hold is in force
         let mut all = events;
         all.extend([Ev::Release, Ev::Repair, Ev::Join]);
@@ -305,7 +312,7 @@ fn run_net(case: &NetCase) -> Outcome {
                         let channel = if fresh_channel { Channel::connect(server_addr()) } else { shared.clone() };
                         let done = done2.clone();
                         let started_during_fault = faulty;
-                        handles.push(tokio::spawn(async move {
+                        handles.push((id, tokio::spawn(async move {
                             let mut base = RpcClient::<Echo>::new(channel);
                             base.set_timeout(t);
                             let client = match client_form {
@@ -327,11 +334,11 @@ fn run_net(case: &NetCase) -> Outcome {
                                 Err(s) => Err((code_num(&s.code), s.message)),
                             };
                             done.lock().push(Done { id, payload_digest: digest(id, &payload), reply_len, result, elapsed, started_during_fault });
-                        }));
+                        })));
                     }
                 },
                 Ev::Partition => {
-                    if handles.iter().any(|h| !h.is_finished()) {
+                    if handles.iter().any(|(_, h)| !h.is_finished()) {
                         *fdf.lock() = true;
                     }
                     turmoil::partition("client", "server");
@@ -342,7 +349,7 @@ fn run_net(case: &NetCase) -> Outcome {
                     faulty = false;
                 },
                 Ev::Hold => {
-                    if handles.iter().any(|h| !h.is_finished()) {
+                    if handles.iter().any(|(_, h)| !h.is_finished()) {
                         *fdf.lock() = true;
                     }
                     turmoil::hold("client", "server");
@@ -353,8 +360,19 @@ fn run_net(case: &NetCase) -> Outcome {
                 },
                 Ev::Sleep(ms) => tokio::time::sleep(Duration::from_millis(ms)).await,
                 Ev::Join => {
-                    for h in handles.drain(..) {
+                    for (_, h) in handles.drain(..) {
                         let _ = h.await;
+                    }
+                },
+                Ev::Cancel(k) => {
+                    // no await between the test and the abort: a task that is not finished has not reported
+                    // (an aborted task reports `is_finished` only once the runtime has dropped it)
+                    let already: Vec<u64> = cancelled2.lock().clone();
+                    let running: Vec<usize> = (0..handles.len()).filter(|i| !handles[*i].1.is_finished() && !already.contains(&handles[*i].0)).collect();
+                    if !running.is_empty() {
+                        let (id, h) = &handles[running[k % running.len()]];
+                        h.abort();
+                        cancelled2.lock().push(*id);
                     }
                 },
             }
@@ -411,7 +429,21 @@ fn run_net(case: &NetCase) -> Outcome {
         }
     }
     let sent: usize = case.events.iter().map(|e| if let Ev::Send { n, .. } = e { *n } else { 0 }).sum();
-    ensure!(done.len() == sent, "request-never-completed", "{sent} requests were sent but only {} completed", done.len());
+    let cancelled = cancelled.lock().clone();
+    ensure!(
+        done.len() + cancelled.len() == sent,
+        "request-never-completed",
+        "{sent} requests were sent, {} were given up by their callers, but only {} completed",
+        cancelled.len(),
+        done.len()
+    );
+    // a request whose caller gave up is still executed at most once, and nobody else received its reply (checked above:
+    // every reply carries the id of its own request)
+    for id in &cancelled {
+        ensure!(!done.iter().any(|d| d.id == *id), "cancelled-request-reported", "request {id} was cancelled and reported a result as well");
+        let executions = log.seen.iter().filter(|(i, _, _)| i == id).count();
+        ensure!(executions <= 1, "executed-twice", "request {id} (given up by its caller) was executed {executions} times by the handler");
+    }
     let mut labels = vec![];
     let fdf = *fault_during_flight.lock();
     if fdf {
@@ -419,6 +451,9 @@ fn run_net(case: &NetCase) -> Outcome {
     }
     if errors > 0 {
         labels.push("some_request_failed");
+    }
+    if !cancelled.is_empty() {
+        labels.push("caller_gave_up_on_a_request");
     }
     if done.iter().any(|d| d.result.is_ok() && d.started_during_fault) {
         labels.push("ok_after_starting_under_fault");
